@@ -297,7 +297,7 @@ def rule_X9(ctx) -> None:
             continue
         n += 1
         name = p.value[1][1]
-        if any(t[0] == "call" and dotted(t[1]).endswith(".group") for t in walk_(name)):
+        if any(t[0] == "call" and (dotted(t[1]).endswith(".group") or dotted(t[1]).endswith(".groups")) for t in walk_(name)):
             continue                               # the part the pattern captured after the package
         calls_ = [t for t in walk_(name) if t[0] == "call" and t[1][0] == "a"]
         meths = {t[1][2] for t in calls_}
